@@ -154,6 +154,10 @@ def configs(quick):
     return sel
 
 
+# heavy scenarios: a data-dependent branch introduced into the step forks them; keep the exploration bound small
+flow_step.max_paths = 4
+
+
 def main():
     chk = Check("C01", "one flow time step vs the documented operator sequence, stage by stage with cut points (symbolic execution of the real simulators, z3 NRA + LRA tolerance queries)",
                 functions=["FlowSimulator.time_step/_update_simulator_time", "UnboundedNavierStokesFlowSimulator2D/3D._navier_stokes_time_step/_navier_stokes_with_forcing_time_step",
